@@ -194,7 +194,7 @@ def oracle_c03(case, obs):
             if e.get("reason") != want:
                 return "action %d: reason %r, expected %r" % (h, e.get("reason"), want)
             ext = expected_extractor(case, x["cls"])
-            extra = {k for k in e if k.startswith("f") and 40 <= int(k[1:]) < 50}
+            extra = {k for k in e if k.startswith("f") and 40 <= int(k[1:]) < 46}
             if ext is not None and ext[0] == "fields":
                 for k, v in ext[1]:
                     if progs.canon_value(e.get(progs.key_name(k), None)) != progs.canon_value(progs.py_value(v)) \
